@@ -1384,6 +1384,28 @@ class Interp:
             v = self.run_fn(path, args)
             self.emit("ret", callee=self.facts.short_of.get(path, path))
             return v
+        # a foreign function without a model whose arguments give it no mutable access to anything: its result is an
+        # unknown of the declared type (over-approximation: every value of that type is explored where it matters)
+        if not path.startswith(CRATE + "::") and not path.startswith("<" + CRATE) and n.get("ty") is not None:
+            def has_mut(v, d=0):
+                v = v if not isinstance(v, UnkV) else v
+                if isinstance(v, RefV):
+                    return v.mut or has_mut(v.cell.value, d + 1) if d < 4 else v.mut
+                if isinstance(v, ClosureV):
+                    return True       # a closure may capture anything
+                if isinstance(v, (StructV,)):
+                    return any(has_mut(c.value, d + 1) for c in v.fields.values()) if d < 4 else False
+                if isinstance(v, TupleV):
+                    return any(has_mut(c.value, d + 1) for c in v.cells) if d < 4 else False
+                if isinstance(v, UnkV):
+                    t = self.ty(v.ty)
+                    return "&mut" in t["s"] or "&'" in t["s"] and " mut " in t["s"]
+                return False
+            if not any(has_mut(a) for a in args):
+                self.opaque_n = getattr(self, "opaque_n", 0) + 1
+                nm = "%s#%d(%s)" % (path.rsplit("::", 1)[-1], self.opaque_n, ", ".join(repr(a)[:40] for a in args))
+                self.emit("opaque_call", callee=path, line=n.get("line"))
+                return UnkV(n["ty"], nm)
         raise Unrecognised("no model for callee %s (line %s)" % (path, n.get("line")))
 
     def call_value(self, f, args, n=None):
